@@ -3,11 +3,10 @@ package props
 import (
 	"fmt"
 	"html/template"
-
-	"github.com/gobuffalo/plush/v5/helpers/hctx"
 	"strings"
 
 	"github.com/gobuffalo/plush/v5"
+	"github.com/gobuffalo/plush/v5/helpers/hctx"
 
 	"verifharness/internal/core"
 )
